@@ -16,6 +16,14 @@
    explained) and evaluates the C12 predicates on every logged state.  A step no action explains, or a state in which a C12
    predicate is false, is a violation.  Self-test: a corrupted log must be rejected at the corrupted step.
 
+4. the relaunch window (Restart.tla with Window = TRUE: restart accepted -> phase "launching" -> Launch | Kill): TLC checks the
+   design (KilledInWindow, KillIsTheEnd: after a kill in the window no further start / task, exit reason Killed, budget
+   untouched; LaunchNeedsStart) and prints all edges of a small family; the driver covers them with tours executed on the REAL
+   Engine.run() launch / termination pipeline (harness/world_g01.py: real Engine on lanes, fake Task, virtual time; Launch = the
+   start timer + launch delay fire, Kill = Engine.kill() delivered through the termination subject and run()'s error path,
+   Exit = the task's wait() returns, Direct = Engine.restart() with the real hook files) comparing after every step: restart
+   code, Engine.run() calls, tasks submitted, Engine.restarts, resubmissionAttempts(), engine alive, engine exit reason, hook calls.
+
 Keys: the three named deviations of the spec have their own keys (DEV_KEY, genuine defects of /repo, see
 out/proposed_fixes/C12_*); every other mismatch is keyed by entry point, engine kind and class of the step.
 """
@@ -157,16 +165,17 @@ def run_tlc(module, cfg, **kw):
 # 1. design
 INVARIANTS = ["TypeOK", "BudgetRespected", "ResubBounded", "RunsAccounted"]
 EV_INVARIANTS = ["OnlyRestartable", "NeverAfterKilled", "RefusedIsFinal"]
-ACTION_PROPS = ["StartsOnlyWhenAllowed", "RefusalFinalises", "FinalIsFrozen", "ResetOnlyOnSuccess"]
+ACTION_PROPS = ["StartsOnlyWhenAllowed", "RefusalFinalises", "FinalIsFrozen", "ResetOnlyOnSuccess", "KillIsTheEnd",
+                "LaunchNeedsStart"]
 
 
-def design_cfg(name, devs, max_runs, view):
-    body = "CONSTANTS\n  Configs <- MCConfigs\n  MaxRuns = %d\n  MaxCount = %d\n  Deviations <- %s\n  Emit = FALSE\n" % (
-        max_runs, max_runs, devs)
+def design_cfg(name, devs, max_runs, view, window=False):
+    body = "CONSTANTS\n  Configs <- MCConfigs\n  MaxRuns = %d\n  MaxCount = %d\n  Deviations <- %s\n  Emit = FALSE\n  Window = %s\n" % (
+        max_runs, max_runs, devs, "TRUE" if window else "FALSE")
     body += "SPECIFICATION Spec\nCONSTRAINT Bounded\n"
     if view:
         body += "VIEW DesignView\n"
-    for i in INVARIANTS + ([] if view else EV_INVARIANTS):
+    for i in INVARIANTS + ([] if view else EV_INVARIANTS) + (["KilledInWindow"] if window else []):
         body += "INVARIANT %s\n" % i
     for p in ACTION_PROPS:
         body += "PROPERTY %s\n" % p
@@ -219,8 +228,8 @@ def tlc_edges(chk, tier, configs):
     mod = "Restart_mc_%s" % tier
     # restarts <= 5 (beyond the default budget 3), the resubmission counter is bounded by the policy itself, runs never binds
     body = ("CONSTANTS\n  Configs <- MCConfigs\n  MaxRuns = 40\n  MaxCount = %d\n  Deviations <- MCNoDeviation\n  Emit = TRUE\n"
-            "SPECIFICATION Spec\nCONSTRAINT Bounded\nVIEW EdgeView\nACTION_CONSTRAINT EmitEdge\nCHECK_DEADLOCK FALSE\n" % (
-                4 if tier == "quick" else 5))
+            "  Window = FALSE\nSPECIFICATION Spec\nCONSTRAINT Bounded\nVIEW EdgeView\nACTION_CONSTRAINT EmitEdge\n"
+            "CHECK_DEADLOCK FALSE\n" % (4 if tier == "quick" else 5))
     r = run_tlc(mod, write_cfg("Restart_edges_%s" % tier, body), workers=1, timeout=1500)
     if not r["ok"]:
         raise MachineryError("edge emission failed:\n%s" % r["out"][-2000:])
@@ -300,10 +309,10 @@ def do_step(inst, ev):
     raise MachineryError("unknown action %r" % (ev,))
 
 
-def plan_tour(adj, uncovered, blocked):
+def plan_tour(adj, uncovered, blocked, init=INIT):
     """Greedy tour from the initial state over the spec's graph: follow uncovered edges, walk to the nearest state that still
     has one.  adj: state -> list of edge indices (sorted); returns list of edge indices (possibly empty)."""
-    tour, cur = [], INIT
+    tour, cur = [], init
     planned = set()
     while True:
         nxt = [i for i in adj.get(cur, ()) if i in uncovered and i not in planned and i not in blocked]
@@ -369,11 +378,14 @@ _SHARED = {}      # edges / scratch for the forked workers (inherited, not pickl
 
 
 def _replay_chunk(job):
-    idx, default_hook, cfgs = job
+    idx, default_hook, cfgs = job[:3]
     from .. import world_c12 as W
     col = Collector()
     sub = os.path.join(_SHARED["scratch"], "chunk%03d" % idx)
     os.makedirs(sub, exist_ok=True)
+    if len(job) > 3:                       # a chunk of the relaunch-window family: the real Engine.run() pipeline
+        col.stats.update(replay_window(col, cfgs, _SHARED["wedges"], sub, default_hook))
+        return col
     world = W.World(sub, cfgs, default_hook)
     try:
         for cfg in cfgs:
@@ -383,7 +395,7 @@ def _replay_chunk(job):
     return col
 
 
-def replay_edges(chk, configs, edges, scratch):
+def replay_edges(chk, configs, edges, scratch, wconfigs=(), wedges=None):
     """All edges of all configurations on the real code.  The configurations are independent: they are spread over forked
     worker processes (each builds its own real Experiment); the results are applied to the Check in the order of the chunks."""
     import multiprocessing
@@ -394,7 +406,10 @@ def replay_edges(chk, configs, edges, scratch):
         size = 12 if len(configs) < 200 else 40
         for lo in range(0, len(cs), size):
             jobs.append((len(jobs), default_hook, cs[lo:lo + size]))
-    _SHARED.update(edges=edges, scratch=scratch)
+    for (sim, default_hook), cs in sorted(group_worlds(list(wconfigs)).items()):
+        for lo in range(0, len(cs), 2):
+            jobs.append((len(jobs), default_hook, cs[lo:lo + 2], "window"))
+    _SHARED.update(edges=edges, scratch=scratch, wedges=wedges)
     nproc = max(1, min(8, (os.cpu_count() or 2) // 2, len(jobs)))
     if nproc > 1:
         ctx = multiprocessing.get_context("fork")
@@ -402,11 +417,12 @@ def replay_edges(chk, configs, edges, scratch):
             cols = pool.map(_replay_chunk, jobs, chunksize=1)
     else:
         cols = [_replay_chunk(j) for j in jobs]
-    stats = {"edges": 0, "tours": 0, "steps": 0, "blocked": 0}
+    stats = {"edges": 0, "tours": 0, "steps": 0, "blocked": 0, "window_edges": 0, "window_tours": 0, "window_steps": 0,
+             "window_blocked": 0}
     for col in cols:
         for k in stats:
-            stats[k] += col.stats[k]
-        for cid, n in sorted(col.evaluated_n.items()):
+            stats[k] += col.stats.get(k, 0)
+        for cid, n in sorted(col.evaluated_n.items(), key=str):
             for i in range(n):
                 chk.evaluated(("edge", cid, i))
         chk.trace_validated(col.tours)
@@ -493,6 +509,8 @@ def brief(evs):
             out.append("exit:" + ev["reason"])
         elif ev["act"] == "LateRestart":
             out.append("late:" + ev["reason"])
+        elif ev["act"] in ("Launch", "Kill"):
+            out.append(ev["act"].lower())
         else:
             out.append(("pm" if ev["act"] == "PostMortem" else "restart") + ("" if ev["answer"] == "na" else ":" + ev["answer"]))
     return "[" + " ".join(out) + "]"
@@ -612,7 +630,7 @@ def validate_traces(chk, tier, traces, name=None):
         for c, st in traces:
             f.write(json.dumps({"c": c, "steps": [{k: s[k] for k in keep} for s in st]}) + "\n")
     cfgp = write_cfg(name, "CONSTANTS\n  Configs <- MCConfigs\n  MaxRuns = 0\n  MaxCount = 0\n  Deviations <- MCAllDeviations\n"
-                           "  Emit = FALSE\n  TraceFile = \"%s\"\nINIT TraceInit\nNEXT TraceNext\nINVARIANT TraceEmit\n"
+                           "  Emit = FALSE\n  Window = FALSE\n  TraceFile = \"%s\"\nINIT TraceInit\nNEXT TraceNext\nINVARIANT TraceEmit\n"
                            "CHECK_DEADLOCK FALSE\n" % ndjson)
     r = run_tlc(name, cfgp, workers=1, timeout=1500)
     if not r["ok"]:
@@ -727,21 +745,178 @@ def random_traces(chk, tier, configs, scratch):
 
 
 # ---------------------------------------------------------------------------------------------------------------------
+# 4. the relaunch window (Restart.tla, Window = TRUE) on the real launch / termination pipeline of Engine.run()
+INIT_W = ("launching", "none", 0, 0, "none")
+
+
+def window_family(tier):
+    """Engine.restart() on its own, normal engine; every start opens the window in which Launch / Kill race."""
+    cs = [mk(hook=HOOKS[1], entry="engine"),                                           # the default component: budget 3, no hook
+          mk(maxR=1, hook=HOOKS[0], restartOn=HOOKED, entry="engine", answers="core"),
+          mk(maxR=-1, hook=HOOKS[3], restartOn=("ResourceExhausted", "Success"), entry="engine", answers="core"),
+          mk(maxR=2, hook=HOOKS[2], restartOn=HOOKED, entry="engine"),
+          mk(maxR=0, hook=HOOKS[1], entry="engine"),
+          mk(backend="sim", maxR=2, restartOn=("KnownIssue", "SubmissionFailed"), entry="engine")]
+    if tier != "quick":
+        cs += [mk(maxR=m, hook=h, restartOn=s, entry="engine") for m in (UNSET, 2, -1) for h in (HOOKS[0], HOOKS[3], HOOKS[4])
+               for s in (HOOKED, ("SubmissionFailed", "KnownIssue", "Success"))]
+        cs += [mk(backend="simoff", maxR=1, hook=HOOKS[0], restartOn=HOOKED, entry="engine")]
+    out, seen = [], set()
+    for c in cs:
+        k = json.dumps(c, sort_keys=True)
+        if k not in seen:
+            seen.add(k)
+            out.append(dict(c, id=len(out)))
+    return out
+
+
+def tlc_window(chk, tier, configs):
+    mod = "Restart_mcwin_%s" % tier
+    write_mc_module(mod, configs)
+    r = run_tlc(mod, design_cfg("Restart_designwin_%s" % tier, "MCNoDeviation", 5, False, window=True), coverage=True, timeout=600)
+    if not r["ok"]:
+        raise MachineryError("Restart.tla (relaunch window): %s fails on the design:\n%s" % (r["violated"], r["out"][-2500:]))
+    for a in ("Launch", "Kill", "Exit", "Direct"):
+        if not (r["coverage"].get(a) or r["coverage"].get(a + "D")):
+            raise MachineryError("action %s of Restart.tla never taken in the window model: %s" % (a, r["coverage"]))
+    chk.add_tlc(r)
+    body = ("CONSTANTS\n  Configs <- MCConfigs\n  MaxRuns = 40\n  MaxCount = %d\n  Deviations <- MCNoDeviation\n  Emit = TRUE\n"
+            "  Window = TRUE\nSPECIFICATION Spec\nCONSTRAINT BoundedWindow\nVIEW EdgeView\nACTION_CONSTRAINT EmitEdge\n"
+            "CHECK_DEADLOCK FALSE\n" % (2 if tier == "quick" else 3))
+    r = run_tlc(mod, write_cfg("Restart_edgeswin_%s" % tier, body), workers=1, timeout=900)
+    if not r["ok"]:
+        raise MachineryError("edge emission (window) failed:\n%s" % r["out"][-2000:])
+    edges = {}
+    for e in r["cases"]:
+        edges.setdefault(e["c"], []).append(e)
+    if set(edges) != {c["id"] for c in configs}:
+        raise MachineryError("window edges emitted for %d of %d configurations" % (len(edges), len(configs)))
+    need = {"kill in the window of a restart": False, "restart asked after that kill": False, "kill in the first window": False,
+            "launch after a restart": False}
+    for es in edges.values():
+        for e in es:
+            if e["ev"]["act"] == "Kill":
+                need["kill in the window of a restart" if e["pre"]["restarts"] + e["pre"]["resub"] > 0 else "kill in the first window"] = True
+            if e["ev"]["act"] == "Direct" and e["pre"]["last"] == "Killed" and e["pre"]["restarts"] > 0:
+                need["restart asked after that kill"] = True
+            if e["ev"]["act"] == "Launch" and e["pre"]["restarts"] > 0:
+                need["launch after a restart"] = True
+    if not all(need.values()):
+        raise MachineryError("the window edges lack the cases %s" % [k for k, v in need.items() if not v])
+    chk.add_tlc(r)
+    return edges
+
+
+def compare_pipe(cfg, e, obs, before):
+    """spec edge vs projection of the real engine (pipeline world) after the event; before: (runs, launched) before it"""
+    ev, post = e["ev"], e["post"]
+    bad = []
+
+    def want(name, expected, got):
+        if expected != got:
+            bad.append("%s: spec %r, code %r" % (name, expected, got))
+    if ev["act"] == "Direct":
+        want("restart code", ev["code"], obs["code"])
+        want("hook consulted", 1 if ev["hook"] else 0, obs["hookCalls"])
+        if ev["hook"] and obs["hookCalls"] == 1:
+            want("`restarts` given to the hook", [post["restarts"]], obs["hookRestartsArg"])
+    else:
+        want("hook consulted", 0, obs["hookCalls"])
+    want("Engine.run() calls", before[0] + (1 if ev["ran"] else 0), obs["runs"])
+    want("tasks submitted", before[1] + (1 if ev["act"] == "Launch" else 0), obs["launched"])
+    want("Engine.restarts", post["restarts"], obs["restarts"])
+    want("resubmissionAttempts()", post["resub"], obs["resub"])
+    want("engine alive", post["phase"] in ("launching", "running"), obs["alive"])
+    want("engine exit reason", post["last"] if post["phase"] == "exited" else "none", obs["exitReason"])
+    return bad
+
+
+def window_step_class(cfg, e):
+    act = e["ev"]["act"]
+    if act == "Kill" or e["pre"]["last"] == "Killed":
+        return "window:kill-between-restart-and-relaunch" if e["pre"]["restarts"] + e["pre"]["resub"] > 0 \
+            else "window:kill-before-first-launch"
+    if act == "Launch":
+        return "window:launch"
+    return "window:" + step_class(cfg, e).split(":", 2)[2]
+
+
+def replay_window(chk, configs, edges, scratch, default_hook):
+    """chk: a Collector (worker process).  All window edges of the configurations on the real Engine.run() pipeline."""
+    from .. import world_c12 as W
+    stats = {"window_edges": 0, "window_tours": 0, "window_steps": 0, "window_blocked": 0}
+    if True:
+        cs = configs
+        world = W.PipelineWorld(scratch, cs, default_hook)
+        try:
+            for cfg in cs:
+                es = sorted(edges[cfg["id"]], key=lambda e: (skey(e["pre"]), e["ev"]["act"], e["ev"]["reason"], e["ev"]["answer"]))
+                adj = {"_dst": {}}
+                for i, e in enumerate(es):
+                    adj.setdefault(skey(e["pre"]), []).append(i)
+                    adj["_dst"][i] = skey(e["post"])
+                uncovered, blocked = set(range(len(es))), set()
+                while uncovered - blocked:
+                    tour = plan_tour(adj, uncovered, blocked, init=INIT_W)
+                    if not tour:
+                        stats["window_blocked"] += len(uncovered - blocked)
+                        if not blocked:
+                            raise MachineryError("window configuration %d: %d edges unreachable" % (cfg["id"], len(uncovered)))
+                        break
+                    stats["window_tours"] += 1
+                    obs, note = world.play(cfg["id"], [es[i]["ev"] for i in tour])
+                    if note["initial"] != {"alive": True, "launched": 0, "runs": 1}:
+                        raise MachineryError("pipeline world: state after Engine.run() is %r" % (note["initial"],))
+                    before = (1, 0)
+                    for n, i in enumerate(tour):
+                        e = es[i]
+                        if n >= len(obs):
+                            bad = ["the real engine cannot take this step: %s" % (note["not_enabled"] or note["item_errors"])]
+                        else:
+                            bad = compare_pipe(cfg, e, obs[n], before)
+                            if not bad and note["item_errors"] and n == len(tour) - 1:
+                                bad = ["exceptions escaped from the engine's rx pipeline: %s" % note["item_errors"][:2]]
+                        stats["window_steps"] += 1
+                        if i in uncovered:
+                            uncovered.discard(i)
+                            stats["window_edges"] += 1
+                            chk.evaluated(("w%d" % cfg["id"], i))
+                        if bad:
+                            blocked.add(i)
+                            chk.reports.append((window_step_class(cfg, e),
+                                   "%s [real Engine.run() pipeline]; after %s the step %s(%s%s) from %s: %s" % (
+                                       describe(cfg), brief([es[j]["ev"] for j in tour[:n]]), e["ev"]["act"], e["ev"]["reason"],
+                                       "" if e["ev"]["answer"] == "na" else ", hook answers " + e["ev"]["answer"], e["pre"],
+                                       "; ".join(bad)),
+                                   {"kind": "window-path", "cfg": cfg, "path": [es[j] for j in tour[:n + 1]]}))
+                            break
+                        before = (obs[n]["runs"], obs[n]["launched"])
+                    chk.trace_validated(1)
+        finally:
+            world.close()
+    return stats
+
+
+# ---------------------------------------------------------------------------------------------------------------------
 def run(tier):
     chk = Check(PID, tier)
     configs = config_family(tier)
     tlc_design(chk, tier, configs)
     edges = tlc_edges(chk, tier, configs)
     vacuity_of_edges(configs, edges)
-    stats = replay_edges(chk, configs, edges, chk.scratch)
+    wconfigs = window_family(tier)
+    wedges = tlc_window(chk, tier, wconfigs)
+    stats = replay_edges(chk, configs, edges, chk.scratch, wconfigs, wedges)
     stats.update(random_traces(chk, tier, configs, chk.scratch))
-    chk.cov["c12"] = dict(stats, configurations=len(configs))
+    chk.cov["c12"] = dict(stats, configurations=len(configs), window_configurations=len(wconfigs))
     chk.cov["rule"] = ("every edge (configuration, Engine.restarts, resubmission counter, last exit reason, event) of the "
                        "state graph of Restart.tla for the configuration family, Engine.restarts <= 4 (quick) / 5 (thorough); distinct = distinct "
                        "(configuration, decision state, event)")
     chk.cov["exhaustive"] = True
     chk.assumptions += [
-        "task launching (Engine.run, the restart thread of RepeatingEngine) is replaced by a counter; rx emissions are not delivered",
+        "parts 2/3: task launching (Engine.run, the restart thread of RepeatingEngine) is replaced by a counter; rx emissions are not delivered",
+        "part 4 (relaunch window): the real Engine.run() pipeline on the lanes of harness/world_g01.py (no threads, virtual time), fake Task; "
+        "Engine.restart() called directly, normal engine; the controller's reaction to the exit reason Killed is covered by part 2",
         "exits are injected through Engine._setExitReason / the ivars RepeatingEngine.exitReason reads",
         "the restart hooks are real files in <instance>/hooks imported by the real machinery; they are told how to behave through an "
         "environment variable and report their invocations to the harness module",
@@ -759,6 +934,8 @@ def replay(path):
     rp = d["replay"]
     cfg = rp["cfg"]
     default_hook = cfg["onDisk"] if cfg["hookFile"] == "unset" else True
+    if rp["kind"] == "window-path":
+        return replay_window_path(chk, W, cfg, rp, default_hook)
     world = W.World(chk.scratch, [cfg], default_hook)
     try:
         inst = W.Instance(world, cfg["id"])
@@ -787,6 +964,37 @@ def replay(path):
     finally:
         world.close()
     # a replay does not rewrite evidence/C12.json
+    import shutil
+    shutil.rmtree(chk.scratch, ignore_errors=True)
+    for k, n in chk.known_hit.items():
+        print("KNOWN-FINDING: property=%s %s [key=%s]" % (PID, chk.known_keys[k]["what"], k))
+    print("%s replay: %s" % (PID, "VIOLATION reproduced" if chk.violations else
+                             ("known finding reproduced" if chk.known_hit else "no violation")))
+    return 1 if chk.violations else 0
+
+
+def replay_window_path(chk, W, cfg, rp, default_hook):
+    world = W.PipelineWorld(chk.scratch, [cfg], default_hook)
+    try:
+        print("replaying on the real Engine.run() pipeline: %s" % describe(cfg))
+        obs, note = world.play(cfg["id"], [e["ev"] for e in rp["path"]])
+        before = (1, 0)
+        for n, e in enumerate(rp["path"]):
+            if n >= len(obs):
+                bad = ["the real engine cannot take this step: %s" % (note["not_enabled"] or note["item_errors"])]
+                print("  %-8s %-18s %-14s -> %s" % (e["ev"]["act"], e["ev"]["reason"], e["ev"]["answer"], bad[0]))
+            else:
+                o = obs[n]
+                bad = compare_pipe(cfg, e, o, before)
+                print("  %-8s %-18s %-14s -> code=%s run()=%d tasks=%d Engine.restarts=%d resubmissions=%d alive=%s exitReason=%s%s" % (
+                    e["ev"]["act"], e["ev"]["reason"], e["ev"]["answer"], o["code"], o["runs"], o["launched"], o["restarts"], o["resub"],
+                    o["alive"], o["exitReason"], "   MISMATCH " + "; ".join(bad) if bad else ""))
+                before = (o["runs"], o["launched"])
+            if bad:
+                chk.violation(window_step_class(cfg, e), "%s: %s" % (describe(cfg), "; ".join(bad)), rp)
+                break
+    finally:
+        world.close()
     import shutil
     shutil.rmtree(chk.scratch, ignore_errors=True)
     for k, n in chk.known_hit.items():
